@@ -16,7 +16,7 @@ class Plan:
     stubbing: bool = False
     extra_rt: tuple = ()
     macro_profiles: tuple = ("dev",)  # which host profiles of the proc-macro to run G under
-    accept_is_obligation: bool = False  # rule-valid but rejected => violation of this property
+    accept_is_obligation: bool = True  # a rule-valid declaration of the structured corpus that does not compile => violation
     reject_is_obligation: bool = False  # rule-invalid but accepted => violation even if the expansion happens to be sound
     reject_expected_note: str = ""
     bounds: dict = dfield(default_factory=dict)
